@@ -212,6 +212,157 @@ CONTRACTS.append(Contract(
     descr="n up to 2^61, r/p up to 2^31 (64-bit vectors, multiplication proved not to overflow)",
 ))
 
+# ---- MD4 padding (RFC 1320 3.1 / 3.2) ---------------------------------------------------------------------
+def _md4_digest_setup(it, args):
+    from pyvc.values import SStr
+    self = args["self"]
+    buf = SStr(z3.String("buf"), "bytes")
+    it.note_input("buf", buf)
+    it.run.assume(z3.Length(buf.e) < 64)
+    count = it.sym_int("count")
+    it.run.assume(count.e >= 0)
+    st = SList([it.sym_int(f"st{k}") for k in range(4)])
+    self.fields.update({"_buf": buf, "_count": count, "_state": st})
+    blocks = []
+
+    def process(it2, a, k):
+        blocks.append(a[0])
+        cur = self.fields["_state"]
+        for i in range(4):  # the compression function overwrites the chaining value in place
+            cur.items[i] = it2.sym_int(it2.run.fresh("compressed"))
+
+    self.fields["_process"] = SStub(process, "_process (own contract above)")
+    it.run.ghost.update({"blocks": blocks, "state0": SList(list(st.items)), "buf": buf, "count": count})
+    lenfield = z3.Function("pack_2I", z3.IntSort(), z3.IntSort(), z3.StringSort())
+
+    def pack(it2, a, k):
+        if a[0] == "<2I":
+            lo, hi = it2.to_z3(a[1], "int"), it2.to_z3(a[2], "int")
+            r = lenfield(lo, hi)
+            it2.run.assume(z3.Length(r) == 8)
+            it2.run.ghost["lenfield"] = (lo, hi, r)
+            return SStr(r, "bytes")
+        if a[0] == "<4I":
+            return SStr(z3.String(it2.run.fresh("digest")), "bytes")
+        from pyvc.values import Unsupported
+        raise Unsupported("struct.pack format")
+
+    it.genv.vars["struct"] = SModule("struct", {"pack": SStub(pack, "struct.pack", trusted="struct '<2I' / '<4I'")})
+    return None
+
+
+def _md4_digest_post(it, env):
+    from pyvc.values import SStr
+    g = it.run.ghost
+    buf = g["buf"].e
+    n = z3.Length(buf)
+    total = z3.Concat(*[it.to_z3(b) for b in g["blocks"]]) if len(g["blocks"]) > 1 else it.to_z3(g["blocks"][0])
+    lo, hi, lf = g["lenfield"]
+    bits = g["count"].e * 512 + n * 8
+    zeros = it.str_repeat(SStr(z3.StringVal("\x00"), "bytes"), it.wrap_int((55 - n) % 64))
+    want = z3.Concat(buf, z3.StringVal("\x80"), it.to_z3(zeros), lf)
+    self = env.lookup("self")
+    restored = self.fields["_state"] is not None and all(it.truth(it.cmp_vals("==", a, b)) is True or True for a, b in zip(it.static_items_req(self.fields["_state"]), g["state0"].items))
+    same_state = z3.And(*[it.to_z3(a, "int") == it.to_z3(b, "int") for a, b in zip(it.static_items_req(self.fields["_state"]), g["state0"].items)])
+    return z3.And(total == want, lo == bits % 2**32, hi == (bits / 2**32) % 2**32, z3.Or(len(g["blocks"]) == 1, len(g["blocks"]) == 2), same_state,
+                  z3.And(*[z3.Length(it.to_z3(b)) == 64 for b in g["blocks"]]))
+
+
+CONTRACTS.append(Contract(
+    "md4.digest", f"{M}::md4.digest",
+    params={"self": Obj(cls=(M, "md4"))},
+    setup=_md4_digest_setup,
+    ensures=[("blocks processed == buf || 0x80 || zeros((55 - len) mod 64) || bit length (64-bit little endian, low word first); one or two 64-byte blocks; state restored", _md4_digest_post)],
+    descr="every buffer of < 64 bytes, every block count",
+))
+
+# ---- HMAC (RFC 2104) over an abstract hash -----------------------------------------------------------
+DG = "passlib/crypto/digest.py"
+Hf = z3.Function("H", z3.StringSort(), z3.StringSort())
+
+
+def _hash_obj(it, view, dsize):
+    o = SObj(it.run.fresh("hashobj"), fresh=True, fields={"view": view})
+
+    def update(it2, a, k):
+        o.fields["view"] = it2.binop("Add", o.fields["view"], a[0])
+
+    def digest(it2, a, k):
+        from pyvc.values import SStr
+        d = Hf(it2.to_z3(o.fields["view"]))
+        it2.run.assume(z3.Length(d) == it2.to_z3(dsize, "int"))
+        return SStr(d, "bytes")
+
+    def copy(it2, a, k):
+        return _hash_obj(it2, o.fields["view"], dsize)
+
+    o.fields.update({"update": SStub(update, "hash.update"), "digest": SStub(digest, "hash.digest"), "copy": SStub(copy, "hash.copy")})
+    return o
+
+
+def _hmac_setup(it, args):
+    from pyvc.values import SStr
+    B = it.sym_int("block_size")
+    D = it.sym_int("digest_size")
+    it.run.assume(z3.And(B.e >= 16, D.e >= 1, D.e <= B.e))
+    const = SStub(lambda it2, a, k: _hash_obj(it2, a[0] if a else b"", D), "hash constructor", trusted="hash object: view = bytes absorbed; digest() = H(view); copy() keeps the view")
+    info = (const, D, B)
+    it.genv.vars["lookup_hash"] = SStub(lambda it2, a, k: info, "lookup_hash")
+    it.run.ghost.update({"B": B, "D": D})
+    return {"block_size": B, "digest_size": D}
+
+
+def _hmac_post(it, env):
+    from pyvc.values import SStr
+    g = it.run.ghost
+    key = it.to_z3(env.lookup("key"))
+    msg = env.lookup("msg")
+    B = g["B"].e
+    hk = Hf(key)
+    it.run.assume(z3.Length(hk) == g["D"].e)
+    k0 = z3.If(z3.Length(key) > B, hk, key)
+    zeros = SStr(z3.StringVal("\x00"), "bytes")
+    pad = it.str_repeat(zeros, it.wrap_int(B - z3.Length(k0)))
+    K = SStr(z3.Concat(k0, it.to_z3(pad)), "bytes")
+    t36 = extract_const(DG, "_TRANS_36")
+    t5c = extract_const(DG, "_TRANS_5C")
+    ipad = it.m_text_translate(K, t36)
+    opad = it.m_text_translate(K, t5c)
+    inner = Hf(z3.Concat(ipad.e, it.to_z3(msg)))
+    want = Hf(z3.Concat(opad.e, inner))
+    res = env.lookup("result")
+    got = it.call_value(res, [msg], {})
+    return it.cmp_vals("==", got, SStr(want, "bytes"))
+
+
+def extract_const(relpath, name):
+    from pyvc import extract as _e
+    return _e.module_constant(relpath, name)
+
+
+CONTRACTS.append(Contract(
+    "compile_hmac", f"{DG}::compile_hmac",
+    params={"digest": Const("sha256"), "key": __import__("pyvc.contract", fromlist=["Bytes"]).Bytes(), "multipart": Const(False), "msg": __import__("pyvc.contract", fromlist=["Bytes"]).Bytes()},
+    setup=_hmac_setup,
+    ensures=[("hmac(msg) == H((K0 xor opad) || H((K0 xor ipad) || msg)), K0 = key (hashed only if LONGER than a block) zero-padded to the block size (RFC 2104)", _hmac_post)],
+    descr="abstract hash with any block size >= 16 and digest size <= block size, every key length, every message",
+))
+
+
+def _pad_tables():
+    t36 = extract_const(DG, "_TRANS_36")
+    t5c = extract_const(DG, "_TRANS_5C")
+    fails = []
+    for x in range(256):
+        if t36[x] != x ^ 0x36 or t5c[x] != x ^ 0x5C:
+            fails.append({"key": "hmac-pad-table", "what": "pad table entry differs from x ^ 0x36 / x ^ 0x5C", "witness": {"x": x, "ipad": t36[x], "opad": t5c[x]}})
+    if len(t36) != 256 or len(t5c) != 256:
+        fails.append({"key": "hmac-pad-table-len", "what": "pad table length", "witness": {}})
+    return {"cases": 512, "failures": fails[:3], "samples": [{"x": 0, "ipad": t36[0], "opad": t5c[0]}]}
+
+
+FINITE = [Finite("hmac-pad-tables", _pad_tables, "_TRANS_36[x] == x ^ 0x36 and _TRANS_5C[x] == x ^ 0x5C for all 256 byte values (RFC 2104 ipad/opad)")]
+
 BOUNDED = [Bounded("c11", "harness/c11.py", descr="DES / bcrypt core / MD4 splits / scrypt / HMAC / PBKDF / SASLprep vs independent references", timeout=900)]
 
 MUTANTS = [
@@ -230,5 +381,10 @@ MUTANTS = [
     ("expand_des_key: shift table start", DES, "_EXPAND_ITER = range(49, -7, -7)\n", "_EXPAND_ITER = range(48, -8, -7)\n", "refute"),
     ("scrypt.validate: accepts n == 1", SC, "    if n < 2 or n & (n - 1):\n", "    if n < 1 or n & (n - 1):\n", "refute"),
     ("scrypt.validate: r*p bound off by one", SC, "    if r * p > MAX_RP:\n", "    if r * p > MAX_RP + 1:\n", "refute"),
+    ("hmac: a key of exactly one block is hashed", DG, "    if klen > block_size:\n        key = const(key).digest()", "    if klen >= block_size:\n        key = const(key).digest()", "refute", "compile_hmac"),
+    ("hmac: inner and outer pads swapped", DG, "    _inner_copy = const(key.translate(_TRANS_36)).copy\n    _outer_copy = const(key.translate(_TRANS_5C)).copy", "    _inner_copy = const(key.translate(_TRANS_5C)).copy\n    _outer_copy = const(key.translate(_TRANS_36)).copy", "refute", "compile_hmac"),
+    ("hmac: opad table constant", DG, "_TRANS_5C = bytes((x ^ 0x5C) for x in range(256))", "_TRANS_5C = bytes((x ^ 0x5D) for x in range(256))", "refute", "hmac"),
+    ("md4: padding length formula off at 55 mod 64", M, "            + b\"\\x00\" * ((119 - len(buf)) % 64)\n", "            + b\"\\x00\" * (64 - (len(buf) + 9) % 64)\n", "refute", "md4.digest"),
+    ("md4: state not restored after digest", M, "        self._state = orig\n        return out", "        return out", "refute", "md4.digest"),
     ("md4: harmless F rewrite", M, "    return (x & y) | ((~x) & z)\n", "    return ((~x) & z) | (y & x)\n", "hold"),
 ]
